@@ -53,6 +53,9 @@ fn lit_f32(e: &Expr) -> Result<f32, String> {
             Lit::Int(i) => i.base10_parse::<f32>().map_err(|e| e.to_string()),
             other => Err(format!("not a numeric literal: {}", toks(other))),
         },
+        Expr::Unary(u) if matches!(u.op, syn::UnOp::Neg(_)) => lit_f32(&u.expr).map(|v| -v),
+        Expr::Paren(p) => lit_f32(&p.expr),
+        Expr::Group(g) => lit_f32(&g.expr),
         other => Err(format!("not a literal: {}", toks(other))),
     }
 }
